@@ -1148,6 +1148,25 @@ func (e *Exec) sliceOp(f *Frame, x *ssa.Slice) Value {
 			}
 			return e.C.Str(s[lo:hi])
 		}
+		// a symbolic string: bounds are checked against its length, the result is an uninterpreted substring of
+		// the right length (equal arguments give equal results)
+		c := e.C
+		ln := e.bytesLen(b)
+		lo, hi := c.BVConst(64, 0), ln
+		if x.Low != nil {
+			lo = c.BVConv(e.get(f, x.Low).(*Term), 64, true)
+		}
+		if x.High != nil {
+			hi = c.BVConv(e.get(f, x.High).(*Term), 64, true)
+		}
+		e.implicit(c.And(c.SLE(c.BVConst(64, 0), lo), c.SLE(lo, hi), c.SLE(hi, ln)), "slice-range", "string slice bounds out of range")
+		sub := c.App("str.substr!", IntSort, b, lo, hi)
+		e.AssumeBenign(c.Eq(c.App("len!", BV(64), sub), c.BVSub(hi, lo)))
+		// the whole string is itself
+		if x.Low == nil && x.High == nil {
+			return b
+		}
+		return sub
 	case *BytesV:
 		if x.Low == nil && x.High == nil {
 			return b
